@@ -249,6 +249,24 @@ CLAIMED = {
              'hang was fixed (6ff8693).',
         technique='Lean 4 invariant lemmas + counterexample theorems + fair-run quiescence testing of the real Pool',
     ),
+
+    'C03': dict(
+        category='proof',
+        text='Lean theorems over an abstract schema/describe/load model with the real name-resolution rules '
+             '(FlatSchema.get, utils.resolve_name, _classname_from_ast, tracer.resolve_name): a qualified name resolves '
+             'independently of the session context exactly when no alias shadows its module '
+             '(resolve_qualified_ctx_independent + converse), C03_ddl / C03_sdl: describe→tokens→parse→replay rebuilds S '
+             'under every non-shadowing context, C03_ctx_independent, print/parse lemma; decide-checked '
+             'counterexamples for the full statement (alias shadowing; SDL re-creating `default`). Tie: generated '
+             'schemas loaded by the real engine, real ddl_text_from_schema / sdl_text_from_schema re-applied to a '
+             'std-only schema under several session contexts (incl. shadowing aliases), outcome compared with the Lean '
+             'prediction and the original (delta_schemas + structural dump); ~960 name-lookup cases against the real '
+             'resolvers; printed-field table vs real introspection.',
+        design_ref='§4 C03, §7',
+        note='Partial: per-class _get_ast logic of the real printer is covered by the differential runs only; stored '
+             'expression bodies are opaque in the model. Three finding classes are open known findings.',
+        technique='Lean 4 proofs over describe/load + name-resolution model, differential replay of real DESCRIBE text through the bridge',
+    ),
 }
 
 NOT_YET = 'check not built yet in this round (planned in DESIGN.md §4); not claimed until its theorem and tie exist'
